@@ -432,6 +432,7 @@ def apply(c):
     c.ghost(rel, P_IMPL, W, "let mut name_refs = HashMap::new();", """
         proof {
             broadcast use crate::dns::name::axiom_label_slice_key_model;
+            lemma_refs_empty(name_refs@, io_buf(out));
             assert(io_buf(out) =~= e0);
             assert(io_buf(out).subrange(0, 12) =~= e0);
             assert(self.questions@.subrange(0, 0) =~= Seq::<Question>::empty());
